@@ -167,6 +167,9 @@ def anonymize_files(
     """Anonymize each file in input and save to output."""
     if not os.path.exists(input_path):
         raise ValueError("Input does not exist")
+    if os.path.exists(output_path) and os.path.samefile(input_path, output_path):
+        # Opening the output for writing would truncate the input before it is read
+        raise ValueError("Output path must be different from input path")
 
     # Generate list of file tuples: (input file path, output file path)
     file_list = []
